@@ -477,6 +477,56 @@ def in_rooms(text):
         text.startswith('self.rooms.setdefault(')
 
 
+def r8_no_autovivification(ctx):
+    """a per-client table that creates entries on read (defaultdict, a
+    __missing__ hook) brings back what the release removed: any later
+    `table[key]` read for the departed client - a late handler, a racing
+    CONNECT - leaves a fresh entry that nothing releases again.  The derived
+    per-client tables are therefore plain dicts wherever the code reads them
+    by subscript."""
+    m = ctx.model
+    n = 0
+    for cname, fams in (('BaseServer', ('Server', 'AsyncServer')),
+                        ('BaseManager', ('Manager', 'AsyncManager',
+                                         'PubSubManager',
+                                         'AsyncPubSubManager'))):
+        f = m.method(cname, '__init__')
+        for a in m._walk_own(f.node):
+            if not isinstance(a, ast.Assign) or not isinstance(a.value,
+                                                                ast.Call):
+                continue
+            fn = U(a.value.func).split('.')[-1]
+            if fn not in ('defaultdict',):
+                continue
+            for t in a.targets:
+                if not (isinstance(t, ast.Attribute) and
+                        U(t.value) == 'self'):
+                    continue
+                attr = t.attr
+                reads = []
+                for cn in (cname,) + fams:
+                    for g in m.cls(cn).methods.values():
+                        for x in m._walk_own(g.node):
+                            if isinstance(x, ast.Subscript) and \
+                                    isinstance(x.ctx, ast.Load) and \
+                                    U(x.value) == 'self.' + attr:
+                                reads.append((g, x))
+                n += 1
+                ctx.check(not reads, cname + '.__init__', 'table %s does not '
+                          'create entries when it is read' % attr,
+                          key='autovivify ' + attr, reason='self.%s is a '
+                          'defaultdict and is read by subscript (%s.%s line '
+                          '%d): a read for a client whose entry was released '
+                          're-creates the entry, which is never released '
+                          'again' % (attr, reads[0][0].cls.name if reads
+                                     else '', reads[0][0].name if reads
+                                     else '', reads[0][1].lineno if reads
+                                     else 0), where=where(f, a))
+    if not n:
+        ctx.ok('BaseServer/BaseManager.__init__', 'no per-client table is an '
+               'auto-vivifying mapping', 'src/socketio/base_server.py')
+
+
 def r6_member_only(ctx):
     m = ctx.model
     f = m.method('BaseManager', 'basic_enter_room')
@@ -603,6 +653,9 @@ def run(ctx):
     for fam in SA:
         for fname in ('disconnect', '_handle_disconnect'):
             r1_r2_site(ctx, fam, fname)
+    ctx.rule('C11.R8', 'no per-client table creates entries on read',
+             floor=1)
+    r8_no_autovivification(ctx)
     ctx.rule('C11.R3', 'emptied rooms / namespaces / pending lists are '
              'collected', floor=3)
     r3_collect(ctx)
